@@ -399,8 +399,16 @@ class InProtocolBase(ProtocolMixin):
         else:
             microsec = min(999999, int(round(float(microsec) * 1e6)))
 
-        return time(int(fields['hr']), int(fields['min']),
-                                                   int(fields['sec']), microsec)
+        hour, minute, sec = int(fields['hr']), int(fields['min']), \
+                                                              int(fields['sec'])
+        if hour == 24 and minute == 0 and sec == 0 and microsec == 0:
+            # Xml Schema spells midnight at the end of a day as 24:00:00
+            hour = 0
+
+        try:
+            return time(hour, minute, sec, microsec)
+        except ValueError as e:
+            raise ValidationError(string, "%%r: %s" % (e,))
 
     def time_from_bytes(self, cls, string):
         if isinstance(string, six.binary_type):
@@ -664,7 +672,15 @@ def _parse_datetime_iso_match(date_match, tz=None):
         # datetime can handle.
         usecond = min(999999, int(round(float(usecond) * 1e6)))
 
-    return datetime(year, month, day, hour, minute, second, usecond, tz)
+    try:
+        if hour == 24 and minute == 0 and second == 0 and usecond == 0:
+            # Xml Schema spells midnight at the end of a day as 24:00:00
+            return datetime(year, month, day, 0, 0, 0, 0, tz) + timedelta(days=1)
+
+        return datetime(year, month, day, hour, minute, second, usecond, tz)
+
+    except (ValueError, OverflowError) as e:
+        raise ValidationError(date_match.group(0), "%%r: %s" % (e,))
 
 
 _dt_sec = lambda cls, val: \
